@@ -36,10 +36,11 @@ Proof.
   - (* mutators *) destruct k; destruct i, m; cbn; try destruct h as [|[]|]; try destruct v; cbn;
       repeat split; intros; try discriminate; try tauto;
       try (exfalso; destruct (H4 eq_refl) as [_ Hx]; now eapply Hx).
-  - (* readers *) destruct r; [|repeat split; tauto|].
+  - (* readers *) destruct r; [|repeat split; tauto| |].
     + destruct i; cbn; [repeat split; tauto|]. apply inv_closed.
     + destruct h as [|hm|]; cbn; try (repeat split; tauto);
         destruct i; cbn; try (repeat split; tauto); apply inv_closed.
+    + destruct i; cbn; [repeat split; tauto|]. apply inv_closed.
   - (* clobber *) subst. repeat split; cbn; intros; try discriminate; try tauto; now apply H4.
   - (* restore *) subst. repeat split; cbn; intros; try discriminate; try tauto; now apply H4.
   - apply inv_fresh.
@@ -66,9 +67,10 @@ Proof.
   - destruct k; destruct i, m; cbn in Hd; try congruence;
       destruct h as [|[]|]; cbn in Hd; try congruence; destruct v; cbn in Hd; try congruence;
       (split; [eexists; reflexivity|]); repeat split; tauto.
-  - destruct r; cbn in Hd; [|congruence|].
+  - destruct r; cbn in Hd; [|congruence| |].
     + destruct i; cbn in Hd; congruence.
     + destruct h; cbn in Hd; try congruence; destruct i; cbn in Hd; congruence.
+    + destruct i; cbn in Hd; congruence.
 Qed.
 Print Assumptions C08_only_in_write_context.
 
@@ -105,7 +107,7 @@ Proof.
   intros [m i h d ga gw vl] c Hc. destruct c as [| | | |k v|r| | |]; cbn; try reflexivity.
   - unfold try_enter. cbn. destruct vl; reflexivity.
   - exfalso. now apply (Hc k v).
-  - destruct r; [destruct i| |destruct h; try destruct i]; reflexivity.
+  - destruct r; [destruct i| |destruct h; try destruct i|destruct i]; reflexivity.
 Qed.
 Print Assumptions C08_readers_pure.
 
@@ -141,10 +143,30 @@ Proof.
   intros cs s r Ht -> Hi m.
   pose proof (a_inv_run cs a_init a_inv_init Ht) as [H1 [H2 [H3 H4]]].
   set (s := a_run a_init cs) in *. destruct s as [md i h d ga gw vl]. cbn in *. subst i.
-  destruct r; cbn; [discriminate|now apply H4|].
+  destruct r; cbn; [discriminate|now apply H4| |discriminate].
   destruct h as [|hm|]; cbn; discriminate.
 Qed.
 Print Assumptions C08_implicit_closed.
+
+(* a comparison t == other that fails because the OTHER file cannot be opened raises, and leaves t as any reader
+   leaves it: outside every context, no handle open, the write permission it may have had pending used up — whatever
+   was done to t before.  In particular no later mutation gets through without a new allow_write() + with. *)
+Theorem C08_failed_comparison_leaves_no_context : forall s,
+  x_inside s = false ->
+  let s' := snd (a_step s (Reader REqBad)) in
+  fst (a_step s (Reader REqBad)) = true /\ x_inside s' = false /\ x_handle s' = HClosed /\ x_mode s' = RB /\
+  x_disk s' = x_disk s /\
+  forall k v, fst (a_step s' (Mutator k v)) = true /\ x_disk (snd (a_step s' (Mutator k v))) = x_disk s.
+Proof.
+  intros [m i h d ga gw vl] Hi. cbn in Hi. subst i. cbn. repeat split; destruct k, vl; reflexivity.
+Qed.
+Print Assumptions C08_failed_comparison_leaves_no_context.
+
+(* ... and inside a context of t the failed comparison changes nothing at all *)
+Theorem C08_failed_comparison_inside : forall s, x_inside s = true ->
+  a_step s (Reader REqBad) = (true, s).
+Proof. intros [m i h d ga gw vl] Hi. cbn in Hi. subst i. reflexivity. Qed.
+Print Assumptions C08_failed_comparison_inside.
 
 (* non-vacuity: the canonical session, and the four refused modes *)
 Example C08_example :
